@@ -1,4 +1,4 @@
-//go:build verif && !verifpub
+//go:build verif
 
 package main
 
@@ -105,7 +105,7 @@ func driveSchnorr(c *ctx) {
 				}
 				var a32 [32]byte
 				copy(a32[:], aux)
-				sig, err := bitcoin.VerifSignSchnorr(&a32, sk, msg)
+				sig, err := deepSignSchnorr(&a32, sk, msg)
 				c.E("schnorr.Sign", "kind", "deep", "d", h32(d), "aux", hx(aux), "msg", hx(msg), "ok", err == nil, "sig", hx(sig),
 					"pub", hx(pk.Bytes()), "verified", err == nil && pk.Verify(msg, sig))
 				sig2, err2 := sk.Sign(&fixedReader{append([]byte{}, aux...)}, msg, nil)
@@ -115,13 +115,13 @@ func driveSchnorr(c *ctx) {
 					continue
 				}
 				verify(pk, msg, sig, false)
-				c.E("schnorr.SelfVerify", "pk", hx(pk.Bytes()), "msg", hx(msg), "sig", hx(sig), "self", bitcoin.VerifVerifySchnorrSelf(sk, msg, sig), "pubverify", pk.Verify(msg, sig))
+				c.E("schnorr.SelfVerify", "pk", hx(pk.Bytes()), "msg", hx(msg), "sig", hx(sig), "self", deepVerifySchnorrSelf(sk, msg, sig), "pubverify", pk.Verify(msg, sig))
 				// boundary mutations of a valid signature
 				if ai == 2 {
 					m := append([]byte{}, sig...)
 					m[rng.Intn(64)] ^= 1 << uint(rng.Intn(8))
 					verify(pk, msg, m, false)
-					c.E("schnorr.SelfVerify", "pk", hx(pk.Bytes()), "msg", hx(msg), "sig", hx(m), "self", bitcoin.VerifVerifySchnorrSelf(sk, msg, m), "pubverify", pk.Verify(msg, m))
+					c.E("schnorr.SelfVerify", "pk", hx(pk.Bytes()), "msg", hx(msg), "sig", hx(m), "self", deepVerifySchnorrSelf(sk, msg, m), "pubverify", pk.Verify(msg, m))
 					verify(pk, append(append([]byte{}, msg...), 0), sig, false)
 					if len(msg) > 0 {
 						verify(pk, msg[:len(msg)-1], sig, false)
@@ -144,7 +144,7 @@ func driveSchnorr(c *ctx) {
 		c.E("schnorr.Sign", "kind", "reader_fail", "d", h32(d), "aux", "", "msg", hx([]byte("m")), "ok", errf == nil, "sig", hx(sigf), "pub", hx(pk.Bytes()), "verified", false)
 
 		// constructed rejections: R with odd y (un-negated nonce), R at infinity (s = e d)
-		dneg := new(big.Int).SetBytes(bitcoin.VerifSchnorrD(sk))
+		dneg := new(big.Int).SetBytes(deepSchnorrD(sk))
 		for t := 0; t < c.scale(2, 6); t++ {
 			msg := randBytes(rng, msgLens[(ki+t)%len(msgLens)])
 			k := add(randBig(rng, add(bigN, -1)), 1)
@@ -154,13 +154,13 @@ func driveSchnorr(c *ctx) {
 				R = mulG(k)
 			}
 			rx, _ := R.XBytes()
-			e := new(big.Int).SetBytes(bitcoin.VerifTaggedHash("BIP0340/challenge", rx, pk.Bytes(), msg))
+			e := new(big.Int).SetBytes(taggedHash("BIP0340/challenge", rx, pk.Bytes(), msg))
 			e.Mod(e, bigN)
 			s := new(big.Int).Mod(new(big.Int).Add(k, new(big.Int).Mul(e, dneg)), bigN)
 			verify(pk, msg, append(append([]byte{}, rx...), be32(s)[:]...), false) // odd-y R: must be rejected
 			// R = infinity: any r that is a field element, s = e d
 			rr := be32(randBig(rng, bigP))[:]
-			e2 := new(big.Int).SetBytes(bitcoin.VerifTaggedHash("BIP0340/challenge", rr, pk.Bytes(), msg))
+			e2 := new(big.Int).SetBytes(taggedHash("BIP0340/challenge", rr, pk.Bytes(), msg))
 			e2.Mod(e2, bigN)
 			s2 := new(big.Int).Mod(new(big.Int).Mul(e2, dneg), bigN)
 			verify(pk, msg, append(append([]byte{}, rr...), be32(s2)[:]...), false)
@@ -171,7 +171,7 @@ func driveSchnorr(c *ctx) {
 			var a32 [32]byte
 			copy(a32[:], auxs[ki%2])
 			m := []byte("immutability probe")
-			sig1, _ := bitcoin.VerifSignSchnorr(&a32, sk, m)
+			sig1, _ := deepSignSchnorr(&a32, sk, m)
 			b1, sb1, p1 := hx(pk.Bytes()), hx(sk.Bytes()), hx(pk.Point().UncompressedBytes())
 			for _, sl := range [][]byte{pk.Bytes(), sk.Bytes(), sk.PublicKey().Bytes()} {
 				for i := range sl {
@@ -190,7 +190,7 @@ func driveSchnorr(c *ctx) {
 			src := sk.PublicKey().Point()
 			pk3, _ := bitcoin.NewSchnorrPublicKeyFromPoint(src)
 			src.Add(src, src)
-			sig2, _ := bitcoin.VerifSignSchnorr(&a32, sk, m)
+			sig2, _ := deepSignSchnorr(&a32, sk, m)
 			ok2 := err == nil && pk2.Verify(m, sig1) && hx(pk2.Bytes()) == b1 && pk3 != nil && hx(pk3.Bytes()) == b1 && pk3.Verify(m, sig1)
 			c.E("schnorr.Immutable", "d", h32(d), "bytes1", b1, "bytes2", hx(pk.Bytes()), "sk1", sb1, "sk2", hx(sk.Bytes()), "point1", p1,
 				"point2", hx(pk.Point().UncompressedBytes()), "sig1", hx(sig1), "sig2", hx(sig2), "copies_ok", ok2, "verify_after", pk.Verify(m, sig1))
@@ -201,17 +201,17 @@ func driveSchnorr(c *ctx) {
 		spk := bitcoin.NewSchnorrPublicKeyFromECDSA(ek.PublicKey())
 		ssk := bitcoin.NewSchnorrPrivateKeyFromECDSA(ek)
 		c.E("schnorr.FromECDSA", "d", h32(d), "bytes", hx(ssk.PublicKey().Bytes()), "point", hx(ssk.PublicKey().Point().UncompressedBytes()),
-			"pubfromecdsa", hx(spk.Bytes()), "pubfromecdsa_point", hx(spk.Point().UncompressedBytes()), "skbytes", hx(ssk.Bytes()), "dneg", hx(bitcoin.VerifSchnorrD(ssk)))
+			"pubfromecdsa", hx(spk.Bytes()), "pubfromecdsa_point", hx(spk.Point().UncompressedBytes()), "skbytes", hx(ssk.Bytes()), "dneg", hx(deepSchnorrD(ssk)))
 		{ // deriving from the same ECDSA key object AGAIN leaves the keys derived earlier (and the new ones) exactly as specified
 			ssk2 := bitcoin.NewSchnorrPrivateKeyFromECDSA(ek)
 			spk2 := bitcoin.NewSchnorrPublicKeyFromECDSA(ek.PublicKey())
 			c.E("schnorr.FromECDSA", "d", h32(d), "bytes", hx(ssk.PublicKey().Bytes()), "point", hx(ssk.PublicKey().Point().UncompressedBytes()),
-				"pubfromecdsa", hx(spk.Bytes()), "pubfromecdsa_point", hx(spk.Point().UncompressedBytes()), "skbytes", hx(ssk.Bytes()), "dneg", hx(bitcoin.VerifSchnorrD(ssk)), "again", 1)
+				"pubfromecdsa", hx(spk.Bytes()), "pubfromecdsa_point", hx(spk.Point().UncompressedBytes()), "skbytes", hx(ssk.Bytes()), "dneg", hx(deepSchnorrD(ssk)), "again", 1)
 			c.E("schnorr.FromECDSA", "d", h32(d), "bytes", hx(ssk2.PublicKey().Bytes()), "point", hx(ssk2.PublicKey().Point().UncompressedBytes()),
-				"pubfromecdsa", hx(spk2.Bytes()), "pubfromecdsa_point", hx(spk2.Point().UncompressedBytes()), "skbytes", hx(ssk2.Bytes()), "dneg", hx(bitcoin.VerifSchnorrD(ssk2)), "again", 2)
+				"pubfromecdsa", hx(spk2.Bytes()), "pubfromecdsa_point", hx(spk2.Point().UncompressedBytes()), "skbytes", hx(ssk2.Bytes()), "dneg", hx(deepSchnorrD(ssk2)), "again", 2)
 			var a32 [32]byte
 			m := []byte("derived-twice")
-			if sg, err := bitcoin.VerifSignSchnorr(&a32, ssk2, m); err == nil {
+			if sg, err := deepSignSchnorr(&a32, ssk2, m); err == nil {
 				verify(ssk.PublicKey(), m, sg, false)
 				verify(spk, m, sg, false)
 			}
@@ -219,7 +219,7 @@ func driveSchnorr(c *ctx) {
 		{ // the key derived from the ECDSA PUBLIC key must verify what the key derived from the ECDSA PRIVATE key signs
 			var a32 [32]byte
 			m := []byte("from-ecdsa")
-			if sg, err := bitcoin.VerifSignSchnorr(&a32, ssk, m); err == nil {
+			if sg, err := deepSignSchnorr(&a32, ssk, m); err == nil {
 				verify(spk, m, sg, false)
 			}
 		}
@@ -266,7 +266,7 @@ func driveSchnorr(c *ctx) {
 				if sk, err := bitcoin.NewSchnorrPrivateKey(skb); err == nil && len(aux) == 32 {
 					var a32 [32]byte
 					copy(a32[:], aux)
-					s, err := bitcoin.VerifSignSchnorr(&a32, sk, msg)
+					s, err := deepSignSchnorr(&a32, sk, msg)
 					c.E("schnorr.Sign", "kind", "deep", "d", hx(skb), "aux", hx(aux), "msg", hx(msg), "ok", err == nil, "sig", hx(s),
 						"pub", hx(sk.PublicKey().Bytes()), "verified", err == nil && sk.PublicKey().Verify(msg, s))
 				}
